@@ -1135,10 +1135,32 @@ class SCCheck:
                 "external_actions": [0, 3], "durations": DUR, "iteration_cap": 8000, "latency_bound": LAT_BOUND}
 
     def gen_case(self, seed, tier):
+        if self.prop == "C03" and seed % 100 == 7:
+            # "any waiting AnyIO operation": one case in 100 is a to_thread workload (real worker threads under the baton
+            # scheduler, engines/threads_to.py) looked at with C03's eyes only - a caller whose scope is cancelled
+            # while it waits for a limiter token must be interrupted
+            from engines import threads_to
+            c = threads_to.gen_case(seed, tier)
+            c["as_prop"] = "C03"
+            return c
         return gen_case(seed, tier, self.prop)
 
     def run_case(self, case):
+        if case.get("as_prop") == "C03":
+            from engines import threads_to
+            r = threads_to.ToThreadRun(case).execute()
+            viol = []
+            for v in r["violations"]:
+                if v["rule"] == "C14.queued_cancel":
+                    viol.append({"rule": "C03.limiter_wait", "sig": "C03.limiter_wait",
+                                 "detail": "to_thread.run_sync() waiting for a limiter token: " + v["detail"]})
+            r["violations"] = viol
+            r["cfg"] = ["to_thread"]
+            return r
         return SCRun(case).execute()
 
     def shrinks(self, case):
+        if case.get("as_prop") == "C03":
+            from engines import threads_to
+            return threads_to.shrinks(case)
         return shrinks(case)
